@@ -18,6 +18,7 @@ one() {
   git -C /repo archive HEAD | tar -x -C "$D"; [ -f /repo/Cargo.lock ] && cp /repo/Cargo.lock "$D"/
   if ( cd "$D" && git init -q . >/dev/null 2>&1; git -C "$D" apply "$P" ) 2>/dev/null; then
     R=$(RNFACTS_LANE=$lane ./check $props --repo "$D" --no-write 2>&1 | grep -E "^(R[0-9]+[a-z]+:|extraction|anchor|Traceback)" | cut -d: -f1 | sort -u | tr '\n' ' ')
+    case "$R" in *extraction*) R=$(RNFACTS_LANE=$lane ./check $props --repo "$D" --no-write 2>&1 | grep -E "^(R[0-9]+[a-z]+:|extraction|anchor|Traceback)" | cut -d: -f1 | sort -u | tr '\n' ' ');; esac
     echo "$kind $2 :: ${R:-silent}"
   else
     echo "$kind $2 :: DOES-NOT-APPLY"
